@@ -59,7 +59,7 @@ func (c20) Mandatory(tier string) []string {
 		m = append(m, "strace:syscalls-observed", "strace:dry-run:Copy", "strace:dry-run:Move", "strace:dry-run:Remove", "strace:injected:Copy", "strace:injected:Move", "strace:injected:Remove")
 	}
 	return append(m, "fault:Copy:control-copy-cut-short", "fault:Remove:missing-source", "k:0", "k:1", "k:2+", "order:copy-control-after-all-closed", "order:move-control-last",
-		"order:remove-control-last", "hostile:../secret.txt", "hostile:sub/../../secret.txt", "hostile:../../other/o.txt", "hostile:/abs/x", "hostile:sub/inner.txt", "hostile:../", "hostile:..//", "hostile:./", "hostile:/", "hostile:sub/", "hostile:../../other/", "hostile:sub/..", "inotify-events-seen", "dest-has-longer-files-of-the-same-names", "hostile:only-in-checksum-fields", "hostile:control-file-lists-itself", "sequence:harmless-upload-through-the-same-path-first", "handle:reader-entry-point-with-unclean-path", "sequence:Copy then Remove", "sequence:Copy then Move", "sequence:Move then Remove", "sequence:Move then Move")
+		"order:remove-control-last", "hostile:../secret.txt", "hostile:sub/../../secret.txt", "hostile:../../other/o.txt", "hostile:/abs/x", "hostile:sub/inner.txt", "hostile:../", "hostile:..//", "hostile:./", "hostile:/", "hostile:sub/", "hostile:../../other/", "hostile:sub/..", "inotify-events-seen", "dest-has-longer-files-of-the-same-names", "hostile:only-in-checksum-fields", "hostile:control-file-lists-itself", "sequence:harmless-upload-through-the-same-path-first", "handle:reader-entry-point-with-unclean-path", "handle:relative-paths", "sequence:Copy then Remove", "sequence:Copy then Move", "sequence:Move then Remove", "sequence:Move then Move")
 }
 
 type c20Case struct {
@@ -241,6 +241,19 @@ func (p c20) run(c *core.C, t *core.T, cs c20Case) {
 	// happens to have - not necessarily in its cleaned form
 	handlePath := ctlPath
 	viaReader := cs.Seed%3 == 0
+	// ... or everything is named relative to the current directory (cd incoming; tool up/src/x.changes dst)
+	rel := !viaReader && cs.Seed%5 == 1
+	destArg := dest
+	if rel {
+		if wd, err := os.Getwd(); err == nil && os.Chdir(base) == nil {
+			defer os.Chdir(wd)
+			handlePath, _ = filepath.Rel(base, ctlPath)
+			destArg, _ = filepath.Rel(base, dest)
+			c.Cover("handle:relative-paths")
+		} else {
+			rel = false
+		}
+	}
 	if viaReader {
 		handlePath = []string{src + "//" + ctlName, src + "/./" + ctlName, filepath.Join(src, "sub") + "/../" + ctlName}[(cs.Seed/3)%3]
 		c.Cover("handle:reader-entry-point-with-unclean-path")
@@ -251,7 +264,7 @@ func (p c20) run(c *core.C, t *core.T, cs c20Case) {
 		if viaReader {
 			d, err = control.ParseDsc(bufio.NewReader(strings.NewReader(sb.String())), handlePath)
 		} else {
-			d, err = control.ParseDscFile(ctlPath)
+			d, err = control.ParseDscFile(handlePath)
 		}
 		if err != nil {
 			c.Failf("ParseDsc(File): %v", err)
@@ -264,7 +277,7 @@ func (p c20) run(c *core.C, t *core.T, cs c20Case) {
 		if viaReader {
 			ch, err = control.ParseChanges(bufio.NewReader(strings.NewReader(sb.String())), handlePath)
 		} else {
-			ch, err = control.ParseChangesFile(ctlPath)
+			ch, err = control.ParseChangesFile(handlePath)
 		}
 		if err != nil {
 			c.Failf("ParseChanges(File): %v", err)
@@ -300,14 +313,14 @@ func (p c20) run(c *core.C, t *core.T, cs c20Case) {
 		var old syscall.Rlimit
 		syscall.Getrlimit(syscall.RLIMIT_FSIZE, &old)
 		syscall.Setrlimit(syscall.RLIMIT_FSIZE, &syscall.Rlimit{Cur: 4096, Max: old.Max})
-		opErr = up.Copy(dest)
+		opErr = up.Copy(destArg)
 		syscall.Setrlimit(syscall.RLIMIT_FSIZE, &old)
 	} else {
 		switch cs.Op {
 		case "Copy":
-			opErr = up.Copy(dest)
+			opErr = up.Copy(destArg)
 		case "Move":
-			opErr = up.Move(dest)
+			opErr = up.Move(destArg)
 		case "Remove":
 			opErr = up.Remove()
 		}
@@ -430,7 +443,11 @@ func (p c20) run(c *core.C, t *core.T, cs c20Case) {
 			c.Failf("%s(%s) returned no error although a step was made to fail (%s; names %q)", cs.Op, cs.Handle, cs.Fault, cs.Names)
 		}
 		if cs.Op != "Remove" {
-			if got, want := filepath.Clean(filename()), filepath.Join(dst, ctlName); got != want {
+			abs := filename()
+			if !filepath.IsAbs(abs) {
+				abs = filepath.Join(base, abs) // relative names are relative to the directory the operation ran in
+			}
+			if got, want := filepath.Clean(abs), filepath.Join(dst, ctlName); got != want {
 				c.Failf("after %s the handle's Filename is %q, want %q", cs.Op, got, want)
 			}
 			if after[ctlRelDst] != before[ctlRelSrc] {
